@@ -87,12 +87,42 @@ pub fn one_case(rng: &mut Rng, o: &GenOpts, prop: &str) -> CaseOut {
         let p2 = vec![other.message.clone()];
         let _ = trap::catch(|| with_record(&other, &p2, |rec| enc.encode(&mut failing, rec)));
     }
+    // now and then formatting the message itself encodes another record through the same encoder
+    let nesting = rng.chance(1, 10);
+    let mut inner_ctx = ctx.clone();
+    inner_ctx.message = "inner message é".into();
+    inner_ctx.level = log::Level::Error;
+    inner_ctx.target = "inner::t".into();
     for attempt in 0..3 {
         let mut w = if short { CapW::short(rng.next_u64()) } else { CapW::new() };
         w.interrupts = short && attempt == 1;
         let t0 = Utc::now();
-        let r = trap::catch(|| with_record(&ctx, &pieces, |rec| enc.encode(&mut w, rec)));
+        let nest = NestingMsg { enc: &enc, inner: &inner_ctx, text: &ctx.message, inner_out: Default::default() };
+        let r = if nesting {
+            trap::catch(|| with_record_display(&ctx, &nest, |rec| enc.encode(&mut w, rec)))
+        } else {
+            trap::catch(|| with_record(&ctx, &pieces, |rec| enc.encode(&mut w, rec)))
+        };
         let t1 = Utc::now();
+        if nesting && matches!(r, Ok(Ok(()))) {
+            // the message is formatted wherever the pattern uses {m}: the nested record, if there was one, is whole
+            if let Some(inner) = nest.inner_out.borrow().clone() {
+                let want_inner = text_of(&render(&nodes, &inner_ctx, &t0.with_timezone(&Local), &t0));
+                let bad = match &inner {
+                    Err(e) => Some(format!("nested encode returned an error: {}", e)),
+                    Ok(b) => match String::from_utf8(b.clone()) {
+                        Err(_) => Some("nested output is not valid UTF-8".to_owned()),
+                        Ok(s) if !has_date(&nodes) && s != want_inner => Some(format!("nested record rendered as {:?}, expected {:?}", s, want_inner)),
+                        _ => None,
+                    },
+                };
+                if let Some(what) = bad {
+                    out.mismatch = Some((format!("{}:record-encoded-while-another-is-being-encoded", prop),
+                        json!({"pattern": pattern, "outer_record": format!("{:?}", ctx), "nested_record": format!("{:?}", inner_ctx), "what": what})));
+                    return out;
+                }
+            }
+        }
         let detail = |what: &str, exp: &str, got: &str| {
             json!({"pattern": pattern, "record": format!("{:?}", ctx), "what": what,
                    "expected_text": exp, "got_text": got, "short_writes": short})
